@@ -127,7 +127,92 @@ pub fn uc_strategy() -> impl Strategy<Value = UcCase> {
         .prop_map(|(gregs, fp, signo, code, addr, errno)| UcCase { gregs, fp, signo, code, addr, errno })
 }
 
+/// Live judge: exception stream vs the supplied crash context / blamed thread.
+pub fn judge_live(c: &crate::props::fid::FCase) -> Verdict {
+    use crate::props::fid::*;
+    let o = match run_case(c) {
+        Ok(o) => o,
+        Err(e) => return run_err_verdict(e),
+    };
+    macro_rules! bad {
+        ($sig:expr, $($arg:tt)*) => { return Verdict::viol(format!("C05:{}", $sig), format!($($arg)*)) };
+    }
+    let Some(exc) = o.d.exception.as_ref() else { bad!("no-exception-stream", "exception stream missing: {:?}", o.d.problems.first()) };
+    let threads = o.d.threads.clone().unwrap_or_default();
+    let listed = threads.iter().find(|t| t.tid as i32 == o.blamed);
+    if exc.tid as i32 != o.blamed {
+        bad!("thread-id", "exception names thread {} but {} was blamed", exc.tid, o.blamed);
+    }
+    let quadrant;
+    if let Some(cr) = &o.crash {
+        quadrant = if listed.is_some() { "context+present" } else { "context+absent" };
+        if exc.code != cr.signo {
+            bad!("signal-number", "exception_code {:#x} != signo {:#x}", exc.code, cr.signo);
+        }
+        if exc.flags != cr.code as u32 {
+            bad!("signal-code", "exception_flags {:#x} != si_code {:#x}", exc.flags, cr.code as u32);
+        }
+        if exc.address != cr.addr {
+            bad!("fault-address", "exception_address {:#x} != si_addr {:#x}", exc.address, cr.addr);
+        }
+        let uc = UcCase { gregs: cr.gregs.clone(), fp: cr.fp.clone(), signo: cr.signo, code: cr.code, addr: cr.addr, errno: 0 };
+        match listed {
+            Some(t) => {
+                let Some(ctx) = o.ctx_of(exc.ctx) else { bad!("context-missing", "exception stream has no decodable context") };
+                if let Some(f) = ucontext_mismatch(&ctx, &uc) {
+                    bad!(format!("reg:{f}"), "exception context field {f} differs from the supplied crash context");
+                }
+                if t.ctx != exc.ctx {
+                    bad!("blamed-thread-context", "blamed thread's entry uses context {:?}, exception uses {:?}", t.ctx, exc.ctx);
+                }
+            }
+            None => {
+                // absent blamed thread: no context, or exactly the supplied one -- never another thread's
+                if exc.ctx.size != 0 {
+                    let Some(ctx) = o.ctx_of(exc.ctx) else { bad!("context-missing", "exception context not decodable") };
+                    if let Some(f) = ucontext_mismatch(&ctx, &uc) {
+                        bad!("foreign-context", "blamed thread is not listed but the exception carries a context that is not the supplied one (field {f})");
+                    }
+                }
+            }
+        }
+    } else {
+        quadrant = if listed.is_some() { "request+present" } else { "request+absent" };
+        if exc.code != 0xFFFF_FFFF {
+            bad!("dump-requested-code", "exception_code {:#x}, expected DUMP_REQUESTED", exc.code);
+        }
+        match listed {
+            Some(t) => {
+                let Some(ctx) = o.ctx_of(t.ctx) else { bad!("context-missing", "blamed thread has no context") };
+                if exc.ctx != t.ctx {
+                    bad!("blamed-thread-context", "exception context {:?} is not the blamed thread's captured context {:?}", exc.ctx, t.ctx);
+                }
+                if exc.address != ctx.rip {
+                    bad!("instruction-pointer", "exception_address {:#x} != blamed thread's rip {:#x}", exc.address, ctx.rip);
+                }
+            }
+            None => {
+                if exc.ctx.size != 0 {
+                    bad!("foreign-context", "blamed thread is not listed but the exception carries a context {:?}", exc.ctx);
+                }
+            }
+        }
+    }
+    Verdict::pass_c(Some(fp_json(c)), vec![quadrant.to_string()])
+}
+
 pub fn run(ctx: &mut LaneCtx) {
+    ctx.run_sub(
+        SubSpec {
+            name: "live-exception",
+            cases: (320, 30_000),
+            rule: "generated targets x {crash context on/off} x blamed thread {main, any other listed thread, a thread id outside the target}; oracle = exception record fields, context equality with the supplied ucontext via the independent table, shared context location with the blamed thread's entry; every case non-trivial, classes = the four (context, presence) quadrants; distinct = hash of case",
+            strategy: crate::props::fid::case_strategy(if ctx.tier == Tier::Quick { 12 } else { 64 }, 0).boxed(),
+            max_shrink_iters: 150,
+            log_current: true,
+        },
+        judge_live,
+    );
     ctx.assume("ss, ds, es are not part of a ucontext and are don't-care on the crash-context path; error_offset/data_offset hold the low 32 bits of FIP/FDP (32-bit format fields)");
     ctx.run_sub(
         SubSpec {
@@ -145,6 +230,7 @@ pub fn run(ctx: &mut LaneCtx) {
 pub fn replay(sub: &str, case: &Value) -> Verdict {
     match sub {
         "pure-ucontext" => replay_case::<UcCase>(case, check_uc),
+        "live-exception" => replay_case::<crate::props::fid::FCase>(case, judge_live),
         _ => Verdict::Inconclusive(format!("unknown sub {sub}")),
     }
 }
